@@ -118,10 +118,10 @@ func workerJob(raw json.RawMessage) any {
 			poisoned = true
 			return JobOut{Stopped: &cur}
 		}
-		if !job.Pairs || len(cs.Devs) != 1 || !devByName[cs.Devs[0].Name].pair {
+		flow := flowByName(cs.Flow)
+		if !job.Pairs || len(cs.Devs) != 1 || !devByName[cs.Devs[0].Name].pair || (cs.Creds && !flow.CredPairs) {
 			continue
 		}
-		flow := flowByName(cs.Flow)
 		pi := 0
 		for k2 := max(cs.Devs[0].Pos+1, job.MinK2[si]); k2 < len(res.Seq); k2++ {
 			for _, dd := range devsFor(res.Seq[k2], flow, true) {
@@ -389,24 +389,27 @@ func chunk(cases []Case, n int, pairs bool, minK2 func(Case) int) []Job {
 
 func main() {
 	if evid.IsWorker() {
-		runtime.GOMAXPROCS(3)
+		runtime.GOMAXPROCS(2)
 		evid.ServeWorker(workerJob)
 	}
 	run := evid.New("C12", "fault_enumeration")
 	run.Rule("case = (flow, credentials in URL yes/no, <=1 deviation (quick) or <=2 deviations (thorough) each bound to a response position). " +
 		"Flows: describe; play over TCP / UDP / automatic protocol (server with UDP, server answering 461, server whose UDP packets never arrive so that the client " +
-		"falls back to TCP on its timer); play+pause TCP/UDP; announce+setup+record TCP(+pause)/UDP; back channel over TCP. Positions = every request the scripted server " +
+		"falls back to TCP on its timer); play+pause TCP/UDP; announce+setup+record TCP(+pause)/UDP/automatic; back channel over TCP (quick tier: 8 of these 12 flows - describe, play-tcp, " +
+		"play-udp, play-auto-461, play-auto-switch, pause-tcp, record-tcp, record-auto). Positions = every request the scripted server " +
 		"answers in the conversation (TEARDOWN and timer-driven keep-alives are answered correctly and are not positions). Singles: every position of the control " +
 		"conversation x every deviation of the menu applicable to the request at that position (status codes incl. redirect chains <=3, CSeq, Session, Transport, Content-Base, " +
 		"SDP incl. control attributes with invalid escapes, delivery: drop/duplicate/delay/inject request or frame/close/silence/Content-Length). Pairs (thorough): both deviations from the " +
 		"reduced pair menu (one or more representatives of every class); for every such single, every later position of the conversation observed under that single x every applicable " +
 		"deviation of the pair menu; in a flow that extends another flow (pause-* extends play-*, play-auto-switch extends play-auto) the second deviation lies beyond the base flow's " +
-		"conversation (pairs inside the shared prefix are run in the base flow). " +
+		"conversation (pairs inside the shared prefix are run in the base flow); pairs with credentials in the URL are enumerated for the flows describe, play-tcp, play-udp, " +
+		"play-auto-switch and record-tcp (singles: all flows with and without credentials). " +
 		"non-trivial = every deviation of the case was actually applied to a response; distinct = (flow, credentials, deviations with positions)")
 	run.Assume("the oracle reads only: whether each API call returned, process liveness, the goroutine set (goroutines with library frames and no harness frame, minus those present before the execution) and the in-memory network's registry after Close")
 	run.Assume("an API call may take up to 60 s of virtual time (2x(ReadTimeout+WriteTimeout) plus two delayed responses) before it counts as hanging; which value or error it returns is not judged")
 	run.Assume("the scripted server is faithful: the control run of every flow (no deviation) must succeed at every step, otherwise the harness reports a harness error (exit 2)")
-	run.Assume("virtual time is advanced only while the scripted server has handled every byte the client wrote and the client has read every byte the server wrote (bounded wait), in 1 s steps")
+	run.Assume("virtual time is advanced in 1 s steps, and only when every other goroutine of the worker process is parked (network in memory, library timers virtual: nothing can move without the clock); if no such fixed point is seen for 500 ms of real time the clock is advanced anyway (counted in advances_without_fixed_point)")
+	run.Assume("a violation is reported only if the same failure at the same step recurs in two further runs of the case, each in a fresh worker process")
 
 	dir := os.Getenv("VERIF_WORK")
 	if dir == "" {
